@@ -71,6 +71,44 @@ for m in MS:
               "limit": "None", "unwind": 3})
 
 
+# ---------------------------------------------------------------------------
+# F5 pure kernels (full 64-bit width)
+# ---------------------------------------------------------------------------
+H("f5_round_up_to", "__verif::f5", "F5", quick=["C19", "C04"], cost=5, inst="-",
+  funcs=["round_up_to"], bounds={"n": "any usize", "divisor": "2^0..2^63"})
+H("f5_fits_under_limit", "__verif::f5", "F5", quick=["C07"], cost=3, inst="Bump<1> (function does not depend on MIN_ALIGN)",
+  funcs=["Bump::chunk_fits_under_limit"], bounds={"headroom": "any Option<usize>", "candidate": "any sizes"})
+for m in (1, 8, 16):
+    H("f5_details_m%d" % m, "__verif::f5", "F5", quick=["C04", "C18", "C19"] if m in (1, 16) else [],
+      thorough=["C04", "C18", "C19", "C01"], cost=10, inst="Bump<%d>" % m,
+      funcs=["Bump::new_chunk_memory_details", "round_up_to"],
+      bounds={"request": "any valid Layout, align <= 4096", "size_hint": "None or any value <= 2^57 or <= request size"})
+    H("f5_monotone_m%d" % m, "__verif::f5", "F5", quick=["C18"] if m == 1 else [], thorough=["C18"], cost=10,
+      inst="Bump<%d>" % m, funcs=["Bump::new_chunk_memory_details"],
+      bounds={"request": "any valid Layout, align <= 4096", "size_hints": "h1 <= h2 <= 2^57"})
+
+
+# ---------------------------------------------------------------------------
+# F2 step-dealloc / shrink / grow through `Allocator for &Bump<M>` (placement variant)
+# ---------------------------------------------------------------------------
+STUB_COPY_RANGE = ["core::ptr::copy_nonoverlapping->cno_range_only", "core::ptr::copy->copy_range_only"]
+F2_FUNCS = ["<&Bump<M> as Allocator>::{deallocate,shrink,grow}", "Bump::dealloc", "Bump::shrink", "Bump::grow",
+            "Bump::is_last_allocation", "Bump::try_alloc_layout_fast", "round_mut_ptr_up_to_unchecked", "round_down_to"]
+for m in MS:
+    for op in ("dealloc", "shrink", "grow"):
+        H("f2_%s_m%d_1k" % (op, m), "__verif::f2", "F2",
+          quick=(["C12", "C01"] if m in (1, 16) else []) + (["C04"] if (m == 8 and op != "dealloc") else []) + (["C02"] if (m == 1 and op != "dealloc") else []),
+          thorough=["C01", "C02", "C04", "C12"], timeout=900, cost=40,
+          stubs=STUB_CUT + STUB_COPY_RANGE, inst="&Bump<%d>" % m, funcs=F2_FUNCS,
+          bounds={"chunk_usable_bytes": "16..1024 (symbolic)", "operated_block": "any live block (any offset/size in the allocated region, align <= 4096), last or not",
+                  "other_live_block": "any (symbolic range, disjoint)", "new_layout": "any size/align <= 4096 (>= old for grow, <= old for shrink)",
+                  "allocator": "A-cut", "copies": "range-recording stubs; copy_nonoverlapping asserts non-overlap", "unwind": 3})
+for nm, m in (("f2_shrink_null_m1_1k", 1), ("f2_grow_null_m1_1k", 1), ("f2_grow_null_m16_1k", 16)):
+    H(nm, "__verif::f2", "F2", quick=["C12"] if nm == "f2_grow_null_m1_1k" else [], thorough=["C12", "C09"], timeout=1200, cost=90,
+      stubs=STUB_NULL + STUB_COPY_RANGE, inst="&Bump<%d>" % m, funcs=F2_FUNCS + ["Bump::alloc_layout_slow"],
+      bounds={"chunk_usable_bytes": "16..1024 (symbolic)", "allocator": "A-null (refuses everything)", "limit": "any Option<usize>", "unwind": 6})
+
+
 def by_name(n):
     for h in ALL:
         if h.name == n:
